@@ -106,3 +106,7 @@ def s_int_conv(a):
 
 def s_pow(a):
     return (a ** 2, a ** 3, 2 ** 10, a * a * a)
+
+
+def s_bit_at(x, y):
+    return (((x & 1) << 7) | y, ((x & 1) << 3) ^ y, ((x & 1) << 5) & y, y | ((x & 1) << 1))
